@@ -164,6 +164,21 @@ def gen(ctx):
         u, cnt = rng.choice(upd)
         cases.append(dict(filter="[.[$k], has($k), (.[$k] |= %s), (.[$k] = 7), (del(.[$k]) | length), keys_unsorted, length, (to_entries | map(.key)), ([.[]] == (to_entries | map(.value)))]" % u,
                           inputs=[o], vars=[("k", k)], kind="obj", ref=("obj", [sx.dumps(x) for x in ks], sx.dumps(k), cnt)))
+    # equal numbers in different representations are one key: lookup, has, update and construction go by ==
+    groups = [[I(1), F(1.0), B(1), D("1.0"), D("1e0"), D("1.00"), D("0.1e1")], [F(1.5), D("1.5"), D("1.50"), D("15e-1")],
+              [I(0), F(0.0), F(-0.0), D("0.0"), D("-0"), D("0e5")], [I(100), F(100.0), D("100"), D("1e2"), D("100.0"), D("1.0e2")],
+              [I(-3), F(-3.0), D("-3.0"), D("-30e-1")], [S("1")], [S("a")], [NULL], [A(I(1))], [A(F(1.0))], [A(D("1.0"))], [O((D("1.0"), I(1)))], [O((I(1), I(1)))]]
+    for _ in range(400 if tier == "quick" else 6000):
+        gs = rng.sample(groups, rng.randint(2, 5))
+        o = O(*[(rng.choice(g), I(n)) for n, g in enumerate(gs)])
+        k = rng.choice(rng.choice(gs if rng.random() < 0.8 else groups))
+        l = rng.choice(rng.choice(groups))
+        cases.append(dict(filter="(to_entries | map(select(.key == $k))) as $e | [.[$k] == (if ($e | length) > 0 then $e[0].value else null end), has($k) == (($e | length) > 0), "
+                                 "((.[$k] = 7) | [length, .[$k]]) == [length + (if ($e | length) > 0 then 0 else 1 end), 7], (del(.[$k]) | length) == length - ($e | length), "
+                                 "({($k): 1, ($l): 2} | [length, .[$k], .[$l]]) == (if $k == $l then [1, 2, 2] else [2, 1, 2] end), ([.[keys_unsorted[]]] == [.[]]), "
+                                 "((.[$k] |= 8) | keys_unsorted | length) == length + (if ($e | length) > 0 then 0 else 1 end), ($e | length) <= 1, "
+                                 "([keys_unsorted[] as $a | keys_unsorted[] as $b | select($a == $b)] | length) == length, (. as $o | [$k] | all(.[]; in($o) == (($e | length) > 0)))]",
+                          inputs=[o], vars=[("k", k), ("l", l)], kind="obj-numkey", ref=("obj-numkey", sx.dumps(o), sx.dumps(k), sx.dumps(l))))
     return cases
 
 
@@ -171,7 +186,7 @@ def oracle(c, impl, model=None):
     if isinstance(impl, list) and impl and impl[0] in ("panic", "crash"):
         return ("panic:" + c["kind"], "panicked: " + sx.dumps(impl)[:200])
     if not (isinstance(impl, list) and impl and impl[0] == "out" and impl[2] == "end" and len(impl[1]) == 1):
-        if c["kind"] in ("arr-index", "arr-slice", "text-slice", "bytes-slice", "bytes-index", "arr-upd", "huge-pos") and isinstance(impl, list) and impl[0] == "out":
+        if c["kind"] in ("arr-index", "arr-slice", "text-slice", "bytes-slice", "bytes-index", "arr-upd", "huge-pos", "obj-numkey") and isinstance(impl, list) and impl[0] == "out":
             return ("unexpected-error:" + c["kind"], "an in-model read/update failed: " + sx.dumps(impl)[:300])
         return None
     out = impl[1][0][1:]
@@ -275,6 +290,11 @@ def oracle(c, impl, model=None):
         w = [want(lambda l, q: l[:q] + [7] + l[q + 1:]), want(lambda l, q: l[:q] + l[q + 1:]), want(lambda l, q: l[:q] + [l[q] + 1] + l[q + 1:])]
         if out[:3] != w:
             return ("nested-upd", "update of %s at [%d]%s[%d]%s: %s, the position model says %s" % (a, i, o1, j, o2, sx.dumps(impl[1][0]), sx.dumps(["A"] + w)))
+    if r[0] == "obj-numkey":
+        names = ["lookup finds the equal key", "has", "assignment", "del", "construction", "iteration by keys", "update", "one entry per key", "keys pairwise distinct", "in"]
+        for i, n in enumerate(names):
+            if out[i] != "true":
+                return ("obj-numkey:" + n, "%s: object %s, key %s / %s" % (n, r[1], r[2], r[3]))
     if r[0] == "obj":
         ks, k, cnt = r[1], r[2], r[3]
         present = k in ks
